@@ -1076,6 +1076,15 @@ func (env *Env) elabCall(x *ECall) SV {
 				}
 				env.tr.stateSort["call."+fid.Name+".n"] = "Int"
 				return env.boolSV(app(">", env.tr.getState(env.st, "call."+fid.Name+".n"), "0"))
+			case "hasvalue":
+				// hasvalue(x): the interface value x holds a non-nil value (not nil, and not a nil pointer wrapped in it)
+				if len(x.Args) == 1 {
+					v := env.elab(x.Args[0])
+					if v.sort == "Iface" {
+						return env.boolSV(and(not(eq("(itag "+v.t+")", "0")), not(eq("(ival "+v.t+")", "0"))))
+					}
+				}
+				return env.fail("hasvalue needs an interface value")
 			case "samearray":
 				// samearray(a, b): two slices share their backing array
 				if len(x.Args) == 2 {
